@@ -2,7 +2,4 @@ package checks
 
 import "verifharness/core"
 
-func c01Truncation(w *core.WorkerCtx) {}
 func c10Genesis(w *core.WorkerCtx)    {}
-func c02Truncation(w *core.WorkerCtx) {}
-func c06Truncation(w *core.WorkerCtx) {}
